@@ -33,6 +33,9 @@
                                     MISMATCHING sources in every array / tuple arity and position; when
                                     the constructor returns, the whole view is walked: every index of
                                     view_shape through get_reference, get_reference_unchecked and iter()
+                                    wave 2: `term` may also be ONE TensorIndex (3 inner ((name index)))
+                                    or TensorExpansion (4 inner ((position name))) over a stack / chain
+                                    term (tags 3 / 4 of Run/RunC02.v; the decoder accepts any view term)
       result: (2) constructor panicked | (0 (shape ((v) | () …)))
    All other C10 workloads are the other properties' cases replayed with the hooks on. *)
 From Coq Require Import List ZArith NArith Bool Arith.
